@@ -294,3 +294,32 @@ func dkgAbstract(args []string) int {
 	}
 	return 0
 }
+
+func init() { commands["dkg-big"] = dkgBig }
+
+// dkg-big --in cases.ndjson --out results.ndjson: all-honest runs at the edges of the size / threshold ranges
+func dkgBig(args []string) int {
+	fs := flag.NewFlagSet("dkg-big", flag.ExitOnError)
+	in := fs.String("in", "", "")
+	out := fs.String("out", "", "")
+	fs.Parse(args)
+	var cases []dkgsim.BigCase
+	if err := readLines(*in, func(b []byte) error {
+		var c dkgsim.BigCase
+		if err := json.Unmarshal(b, &c); err != nil {
+			return err
+		}
+		cases = append(cases, c)
+		return nil
+	}); err != nil {
+		fmt.Fprintln(os.Stderr, err)
+		return 2
+	}
+	res := make([]dkgsim.BigResult, len(cases))
+	parallel(len(cases), func(i int) { res[i] = dkgsim.RunBig(cases[i]) })
+	if err := writeJSONLines(*out, res); err != nil {
+		fmt.Fprintln(os.Stderr, err)
+		return 2
+	}
+	return 0
+}
